@@ -473,3 +473,20 @@ Proof.
   destruct (settle_spec (fuel_of (exec s acts)) (exec s acts) (exec_inv acts s H)) as (l & _ & El & _).
   exists (acts ++ l). rewrite exec_app. exact El.
 Qed.
+
+(* stress mode: the model's observation (nothing lost, nothing hung) satisfies its clauses *)
+Definition stress_wf (op : word) : bool := match op with [4; _; _] => true | _ => false end.
+
+Theorem stress_trace_holds i ops : forallb stress_wf ops = true ->
+  exists obs, run [i; 2] ops = Some obs /\ holds_b [i; 2] ops obs = true.
+Proof.
+  unfold run, holds_b, clauses. induction ops as [|op ops IH]; cbn [forallb stress_go stress_cl_go]; intros Hw.
+  - exists []. split; reflexivity.
+  - apply andb_true_iff in Hw as [Hop Hr]. destruct (IH Hr) as (obs & G & C).
+    assert (E : exists a b, op = [4; a; b]).
+    { destruct op as [|x l]; [discriminate|]. destruct x as [|p|p]; try discriminate Hop.
+      destruct p as [[[p|p|]|[p|p|]|]|[[p|p|]|[p|p|]|]|]; try discriminate Hop;
+        destruct l as [|a [|b [|c l]]]; try discriminate Hop; eauto. }
+    destruct E as (a & b & ->). cbn [stress_obs]. rewrite G. exists ([0; 0] :: obs).
+    split; [reflexivity|]. cbn [stress_cl_go stress_cl app forallb snd]. cbn. exact C.
+Qed.
